@@ -1046,6 +1046,27 @@ impl<'a> VisitMut for Rewriter<'a> {
                 self.logr("R32", line, format!("`.iter().all(pred)` -> {}(&.., pred)", to));
                 *e = parse_quote!(#f(&#x, #c));
             }
+            Expr::MethodCall(mc) if mc.method == "collect" && mc.args.is_empty()
+                && matches!(&*mc.receiver, Expr::MethodCall(fm) if fm.method == "filter" && fm.args.len() == 1
+                    && matches!(&*fm.receiver, Expr::MethodCall(im) if im.method == "iter" && im.args.is_empty()))
+                && self.expr_map.iter().any(|(f, _)| f == "__adapter_iter_filter_collect") =>
+            {
+                // R32 (filter): `X.iter().filter(pred).collect()` -> stand-in with a contract over pred's own contract
+                let to = self.expr_map.iter().find(|(f, _)| f == "__adapter_iter_filter_collect").map(|(_, t)| t.clone()).unwrap();
+                let f = syn::Ident::new(&to, proc_macro2::Span::call_site());
+                let (x, g) = match &*mc.receiver {
+                    Expr::MethodCall(fm) => match &*fm.receiver {
+                        Expr::MethodCall(im) => (im.receiver.clone(), fm.args.first().unwrap().clone()),
+                        _ => unreachable!(),
+                    },
+                    _ => unreachable!(),
+                };
+                let pn = syn::Ident::new(&format!("vx_pred{}", self.pred_counter), proc_macro2::Span::call_site());
+                self.pred_counter += 1;
+                self.logr("R32", line, format!("`.iter().filter(pred).collect()` -> let {} = pred; {}(&.., {})", pn, to, pn));
+                self.pending_lets.push(parse_quote!(let #pn = #g;));
+                *e = parse_quote!(#f(&#x, #pn));
+            }
             Expr::MethodCall(mc) if mc.method == "fold" && mc.args.len() == 2
                 && matches!(&*mc.receiver, Expr::MethodCall(im) if im.method == "iter" && im.args.is_empty())
                 && self.expr_map.iter().any(|(f, _)| f == "__adapter_iter_fold") =>
